@@ -280,6 +280,72 @@ def r2_done(ctx, report, model, ab, classes, it):
 
 # ---- R7: what get_item_size counts per item == what the vector's composer emits per item --------------------------
 
+def size_form_by_evaluation(ctx, f):
+    """the same classification from what get_item_size *returns* for probe items (sa.miniexec): a parsable item whose
+    composition has 7 bytes, a coded enum member (code of 3 characters, code size 13), a 4 character string - on a parameter
+    object with item_size 11, item_num_size 5 and a fallback class 2 bytes wide.  None when not evaluable"""
+    from ..miniexec import Evaluator, Native, Obj, Raised, Unsupported, class_call_hook
+    if f.cls is None:
+        return None
+
+    def chain(name):
+        k = ctx.model.try_cls(name)
+        return {x.name for x in k.mro if hasattr(x, 'name')} if k is not None else {name}
+
+    class Parsable(Native):
+        _isa = chain('ParsableBase') | {'ParsableBaseNoABC'}
+
+        def compose(self):
+            return b'\x00' * 7
+
+    class Coded(Native):
+        _isa = {'CryptoDataEnumCodedBase', 'CryptoDataEnumBase', 'Enum'}
+
+        def __init__(self):
+            self.value = Obj(code='abc', get_code_size=lambda: 13)
+
+    class Param(Native):
+        _repo_class = f.cls
+
+        def __init__(self):
+            self.item_size, self.item_num_size = 11, 5
+            self.fallback_class = Obj(get_byte_num=lambda: 2)
+            self.item_class = Obj(get_byte_num=lambda: 2)
+    hook = class_call_hook(f.cls, None, ctx.model)
+    params = [a.arg for a in f.node.args.args if a.arg != 'self']
+    got = {}
+    try:
+        for key, item in (('P', Parsable()), ('E', Coded()), ('S', 'abcd')):
+            try:
+                got[key] = Evaluator({'self': Param(), params[0]: item}, hook, None).function(f.node)
+            except Raised:
+                got[key] = 'err'
+            except (AttributeError, TypeError):
+                got[key] = 'err'
+            except Unsupported:
+                got[key] = 'n/a'        # this kind of item is outside what the method can be evaluated on (str(item) of a model object ...)
+    except Unsupported:
+        return None
+    if all(v in ('n/a', 'err') for v in got.values()):
+        return None
+    t = tuple('err' if got[k] == 'n/a' else got[k] for k in ('P', 'E', 'S'))
+    if t == (11, 11, 11):
+        return 'fixed:item_size'
+    if t == (1, 1, 1):
+        return 'fixed:1'
+    if t == (2, 2, 2):
+        return 'code-width'
+    if t[0] == 7 and t[1] == 'err':
+        return 'composed'
+    if t[1] == 5 + 3:
+        return 'prefix+code'
+    if t[1] == 3:
+        return 'code'
+    if t[2] == 4 and t[0] in (7, 'err') and t[1] in (13, 'err'):
+        return 'text-item'
+    return 'unknown:%r' % (t,)
+
+
 def size_form(f):
     """classification of the value VectorParam*.get_item_size returns"""
     from ..astutil import returned
@@ -399,7 +465,8 @@ def item_size_agreement(ctx, report, ab, RULE='C12.R7', title='the size counted 
         report.count(RULE)
         report.touch(gis)
         report.touch(comp)
-        sf, ef = size_form(gis), emit_form_ir(ctx, c, prm)
+        sf = size_form_by_evaluation(ctx, gis) or size_form(gis)
+        ef = emit_form_ir(ctx, c, prm)
         if ef is None:
             ef = emit_form(comp)        # layout not derivable: classify the composer by its own statements
         if ef == 'delegates' or (ef.startswith('unknown') and comp.cls.name == 'TlsHandshakeHelloRandomBytes'):
